@@ -239,10 +239,13 @@ _cmd_counter = [0]
 
 
 def run_cmd(cwd, args, plan=None, gc=None, streams="pipes", timeout=20, dump=False, binary=None,
-            extra_env=None):
+            extra_env=None, during=None, nofile=None):
     """Run one mscript CLI process inside the simulated world.  `plan` fixes every
     environment decision of the shim; `gc` = "<seed>:<ppm>" fixes the collector schedule.
-    streams: "pipes" (stdout and stderr separate), "one" (both into one pipe)."""
+    streams: "pipes" (stdout and stderr separate), "one" (both into one pipe).
+    during: a callable run while this process is stopped at the `stall` rule of its plan (two-process schedules: the
+    simulator decides at which call of this process the other one runs, from start to end); if the process ends without
+    reaching the rule, `during` runs after it."""
     _cmd_counter[0] += 1
     n = _cmd_counter[0]
     priv = os.path.join(worker_dir(), ".swpriv")
@@ -267,16 +270,57 @@ def run_cmd(cwd, args, plan=None, gc=None, streams="pipes", timeout=20, dump=Fal
     if extra_env:
         env.update(extra_env)
     argv = [binary or MSCRIPT] + list(args)
+    pre = None
+    if nofile:
+        # a low limit on open descriptors (RLIMIT_NOFILE) for this process only
+        import resource
+
+        def pre():
+            resource.setrlimit(resource.RLIMIT_NOFILE, (nofile, nofile))
     t0 = time.time()
-    try:
-        proc = subprocess.run(argv, cwd=cwd, env=env, stdin=subprocess.DEVNULL, stdout=subprocess.PIPE,
-                              stderr=subprocess.STDOUT if streams == "one" else subprocess.PIPE,
-                              timeout=timeout)
-        rc, out, err = proc.returncode, proc.stdout, proc.stderr or b""
-        timed_out = False
-    except subprocess.TimeoutExpired as e:
-        rc, out, err, timed_out = -999, e.stdout or b"", e.stderr or b"", True
-    res = {"args": list(args), "rc": rc, "out": out, "err": err, "timeout": timed_out,
+    stalled = None
+    if during is not None:
+        for suffix in (".reached", ".release"):
+            try:
+                os.unlink(plan_path + suffix)
+            except FileNotFoundError:
+                pass
+        proc = subprocess.Popen(argv, cwd=cwd, env=env, stdin=subprocess.DEVNULL, stdout=subprocess.PIPE,
+                                stderr=subprocess.STDOUT if streams == "one" else subprocess.PIPE, preexec_fn=pre)
+        stalled = False
+        while time.time() - t0 < timeout:
+            if os.path.exists(plan_path + ".reached"):
+                stalled = True
+                break
+            if proc.poll() is not None:
+                break
+            time.sleep(0.002)
+        during()
+        with open(plan_path + ".release", "w"):
+            pass
+        try:
+            out, err = proc.communicate(timeout=timeout)
+            rc, timed_out = proc.returncode, False
+        except subprocess.TimeoutExpired:
+            proc.kill()
+            out, err = proc.communicate()
+            rc, timed_out = -999, True
+        err = err or b""
+        for suffix in (".reached", ".release"):
+            try:
+                os.unlink(plan_path + suffix)
+            except FileNotFoundError:
+                pass
+    else:
+        try:
+            proc = subprocess.run(argv, cwd=cwd, env=env, stdin=subprocess.DEVNULL, stdout=subprocess.PIPE,
+                                  stderr=subprocess.STDOUT if streams == "one" else subprocess.PIPE,
+                                  timeout=timeout, preexec_fn=pre)
+            rc, out, err = proc.returncode, proc.stdout, proc.stderr or b""
+            timed_out = False
+        except subprocess.TimeoutExpired as e:
+            rc, out, err, timed_out = -999, e.stdout or b"", e.stderr or b"", True
+    res = {"args": list(args), "rc": rc, "out": out, "err": err, "timeout": timed_out, "stalled": stalled,
            "events": parse_log(log_path), "stats": parse_stats(stats_path), "wall": time.time() - t0}
     if dump:
         try:
